@@ -8,6 +8,10 @@
 (*                                                                            *)
 (* Lines (every field is present on every line):                              *)
 (*   reset   trace kind ps init      new server; `init` registered before use *)
+(*           (clsmap lens salt scheme: which identifier class every id has    *)
+(*           and how its concrete unique id is reproduced - short names, long *)
+(*           URIs, unusual characters.  The monitor does not read them: the   *)
+(*           property is the same for every identifier.)                      *)
 (*   mut     op(add|remove|replace) id                                        *)
 (*   start   hid                    a manual traversal starts (empty cursor)  *)
 (*                                  while a visibility filter between server  *)
@@ -16,7 +20,9 @@
 (*                                  client can tell is reg \ hid              *)
 (*   page    ids more err capped    one ListX call of the traversal (ids: the *)
 (*                                  items that arrived; more: it carries a    *)
-(*                                  cursor - also when ids is empty)          *)
+(*                                  cursor - also when ids is empty;          *)
+(*                                  endcls curlen: class of the identifier    *)
+(*                                  inside that cursor, not read here)        *)
 (*   iter    cls hid seq man err    iterator run to completion from a cursor  *)
 (*                                  and manual paging from the same cursor,   *)
 (*                                  both under the filter hid, no mutation in *)
